@@ -19,6 +19,9 @@ for _m in pkgutil.iter_modules([os.path.dirname(__file__)]):
 
 
 def run(prop, tier, seed):
+    import glob
+    for old in glob.glob(os.path.join(core.REPLAYS, "%s-%s-%d-*.json" % (prop, tier, seed))):
+        os.remove(old)    # replays of an earlier run of this very check
     o = core.Outcome(prop, tier, seed)
     fn = CHECKS.get(prop)
     if fn is None:
